@@ -110,7 +110,11 @@ def run(ctx):
             continue
         ctx.count("c12.model.%s" % wname.split("(")[0])
         try:
-            with built.ix.searcher(weighting=wobj) as s:
+            psz = model.partsize_for(idx)
+            if psz is not None:
+                ctx.count("c12.small_array_parts")
+                wb["array_partsize(default of ArrayUnionMatcher)"] = psz
+            with model.array_partsize(psz), built.ix.searcher(weighting=wobj) as s:
                 leaf_blocks(ctx, rng, s, wname, wb)
                 for _ in range(10):
                     c11.one_query(ctx, rng, built, s, wb, mode="c12")
